@@ -7,7 +7,7 @@ from typing import Any, Dict, List, Optional, Set, Tuple
 from ..core import AnalysisError, Report
 from ..names import fixed_text_of_fstring, identifier_alphabet, label_table_writers
 from ..pysubst import block_outcomes
-from ..pyfacts import Repo, cc, cn, calls, dotted, norm, walk_no_nested
+from ..pyfacts import Repo, cc, cn, normalize_tuple_unpack, calls, dotted, norm, walk_no_nested
 
 PRE = 'flipjump/assembler/preprocessor.py'
 ASM = 'flipjump/assembler/assembler.py'
@@ -22,8 +22,10 @@ def rule_writers(rep: Report, repo: Repo) -> None:
     alpha = identifier_alphabet(repo)
     writers = label_table_writers(repo)
     names = sorted({w[1] for w in writers})
-    rep.check(names == ['_insert_wflip_label', 'insert_label', 'insert_segment'], 'C16.WRITERS', 'writer-set', str(names), PRE,
-              expected="['_insert_wflip_label', 'insert_label', 'insert_segment']")
+    # insert_label plus exactly two synthetic writers (one per table owner: the wflip labels of the emitter, the wflip-area start
+    # label of the preprocessor) - the synthetic ones are judged below by what they write, whatever they are called
+    rep.check('insert_label' in names and len(names) == 3 and sorted({w[0] for w in writers}) == sorted({PRE, ASM}), 'C16.WRITERS', 'writer-set',
+              str(names), PRE, expected='insert_label + one synthetic writer in the preprocessor + one in the assembler')
     for rel, fn, key, node in writers:
         site = f'{rel}:{node.lineno} {fn}'
         if fn == 'insert_label':
@@ -66,7 +68,7 @@ def rule_writers(rep: Report, repo: Repo) -> None:
 def rule_same_table(rep: Report, repo: Repo) -> None:
     rep.rule('C16.SAME-TABLE', 'in assemble() the dictionary returned by macro resolution is the one the labels are resolved with and the '
              'one saved, and it is saved after resolution (so the wflip labels are included); the preprocessor returns its live table', 2)
-    asm = repo.func(ASM, 'assemble')
+    asm = normalize_tuple_unpack(repo.func(ASM, 'assemble'))        # `t = f(); a = t[0]; b = t[1]` reads as `a, b = f()`
     tgt = None
     for st in ast.walk(asm):
         if isinstance(st, ast.Assign) and isinstance(st.value, ast.Call) and dotted(st.value.func) == 'resolve_macros' and isinstance(st.targets[0], ast.Tuple):
@@ -109,13 +111,39 @@ def rule_resolve(rep: Report, repo: Repo) -> None:
     rep.rule('C16.RESOLVE', 'exact breakpoints index the table by name; substring breakpoints test `sub in label` over all labels; the '
              'address->label map prefers the shortest name deterministically', 3)
     ex = repo.func(BRK, 'update_breakpoints_from_breakpoint_set')
-    body = ' ; '.join(norm(s).replace('\n', ' ') for s in ex.body)
-    rep.check('if bl not in label_to_address' in body and 'address = label_to_address[bl]' in body and 'breakpoints[address] = bl' in body,
-              'C16.RESOLVE', 'exact', body[:160], f'{BRK}:{ex.lineno}')
+    # exact names: the innermost loop body (forward substitution): a name in the table sets breakpoints[table[name]] = name and a
+    # name not in it only warns - whichever branch comes first
+    body = ''
+    ok = False
+    fors = [n for n in ast.walk(ex) if isinstance(n, ast.For) and isinstance(n.target, ast.Name)]
+    if fors:
+        lv = fors[-1].target.id
+        outs = block_outcomes(fors[-1].body, {}, 'exact-breakpoints:loop')
+        hit = [o for o in outs if f'{lv} in label_to_address' in o.conds]
+        miss = [o for o in outs if f'{lv} not in label_to_address' in o.conds]
+        ok = (len(outs) == len(hit) + len(miss) and bool(hit) and bool(miss)
+              and all(o.effects == [f'breakpoints[label_to_address[{lv}]] = {lv}'] for o in hit)
+              and all(not any(e.startswith('breakpoints[') for e in o.effects) for o in miss))
+        body = str([(o.conds, o.effects) for o in outs])
+    rep.check(ok, 'C16.RESOLVE', 'exact', body[:220], f'{BRK}:{ex.lineno}')
     co = repo.func(BRK, 'update_breakpoints_from_breakpoint_contains_set')
-    body = ' ; '.join(norm(s).replace('\n', ' ') for s in co.body)
-    rep.check('for label in tuple(label_to_address)[::-1]' in body and 'if bcl in label' in body and 'address = label_to_address[label]' in body
-              and 'breakpoints[address] = label' in body, 'C16.RESOLVE', 'substring', body[:200], f'{BRK}:{co.lineno}')
+    # substring breakpoints: for every label (walked from the last to the first, so the first label wins an address) and every
+    # substring, `sub in label` sets breakpoints[table[label]] = label
+    fors = [n for n in ast.walk(co) if isinstance(n, ast.For) and isinstance(n.target, ast.Name)]
+    ok = False
+    body = ''
+    if len(fors) == 2:
+        outer, inner = (fors[0], fors[1]) if any(x is fors[1] for x in ast.walk(fors[0])) else (fors[1], fors[0])
+        lab, sub = outer.target.id, inner.target.id
+        rev = norm(outer.iter) in ('tuple(label_to_address)[::-1]', 'reversed(tuple(label_to_address))', 'reversed(list(label_to_address))',
+                                   'list(label_to_address)[::-1]', 'reversed(label_to_address)')
+        outs = block_outcomes(inner.body, {}, 'substring-breakpoints:loop')
+        hit = [o for o in outs if f'{sub} in {lab}' in o.conds]
+        miss = [o for o in outs if f'{sub} not in {lab}' in o.conds]
+        ok = (rev and norm(inner.iter) == 'breakpoint_contains_labels' and len(outs) == len(hit) + len(miss) and bool(hit)
+              and all(o.effects == [f'breakpoints[label_to_address[{lab}]] = {lab}'] for o in hit) and all(not o.effects for o in miss))
+        body = f'labels {norm(outer.iter)}; ' + str([(o.conds, o.effects) for o in outs])
+    rep.check(ok, 'C16.RESOLVE', 'substring', body[:240], f'{BRK}:{co.lineno}')
     gh = repo.func(BRK, 'get_breakpoint_handler')
     loop = [n for n in ast.walk(gh) if isinstance(n, ast.For) and norm(n.iter) == 'label_to_address.items()']
     txt = norm(loop[0]).replace('\n', ' ') if loop else ''
